@@ -97,6 +97,16 @@ class CutUamiv(Obligation):
     mode = 'int'
     validate_paths = 6
     stubs = ('np.memmap (documented contract)',)
+    encoding_fragile = True          # AST slice of uamiv.__readheader
+
+    def fallback_inputs(self):
+        T = self.p[4] or 3
+        lay = self._layout(T)
+        H, B, full = int(lay.H), int(lay.B), int(lay.H + T * lay.B)
+        cuts = [H, H + 1, H + 4, H + B - 4, H + B, H + B + 4, H + B + 24,
+                full - B, full - 4, full - 1]
+        return [{'L': c, 'T': T} for c in sorted(set(cuts))
+                if H <= c < full]
 
     def __init__(self, nspec, nz, ny, nx, T, fname='AVERAGE'):
         self.p = (nspec, nz, ny, nx, T)
